@@ -375,6 +375,8 @@ func runAsym(res *lib.Result, tier string, rng *lib.Rand, search bool) []asymObs
 		reps = 8
 	}
 	asymBatches(res, ks, rng)
+	keySequences(res, ks, rng)
+	sigLengthMutations(res, ks, rng)
 	for r := 0; r < reps; r++ {
 		encMonitors(res, ks, rng, tier)
 		sigMonitors(res, ks, rng, tier)
@@ -784,6 +786,10 @@ func replayAsym(res *lib.Result, c map[string]any) bool {
 				violate(res, "asym-roundtrip", "Decrypt(Encrypt(p)) != p", c)
 			}
 		}
+	case "key-sequence", "asym-batch":
+		// the failure class does not depend on the key material: re-run the sequences with this run's keys
+		keySequences(res, ks, lib.NewRand(1))
+		asymBatches(res, ks, lib.NewRand(1))
 	default:
 		res.Note("replay: asym monitor " + mon + " is replayed by re-running the generator")
 	}
